@@ -418,3 +418,15 @@ NUMERIC,0,0,0,数字";
         assert!(result.is_err());
     }
 }
+
+#[cfg(vibrato_verif)]
+impl UnkHandler {
+    /// Returns the number of entries of the category (verification hook).
+    pub fn verif_num_entries(&self, cate_id: u32) -> usize {
+        let i = usize::from_u32(cate_id);
+        match (self.offsets.get(i), self.offsets.get(i + 1)) {
+            (Some(s), Some(e)) => e - s,
+            _ => 0,
+        }
+    }
+}
